@@ -12,6 +12,8 @@ computeds k < j), followed by top-level operations
     ["win", acts]                install a throw-away Computed whose function performs `acts`
                                  (["r", owner, name] | ["rk", j] | ["w", owner, name, v]) in order - the
                                  "function that writes to an observable" of the cycle clause
+    ["win2", acts]               the same; when the installation is rejected the Computed stays installed and is
+                                 read once more (observed: raises again / returns None / returns a value)
 Model: coq/Model/Computed.v.  Observation after every op: tag, value read / rejection status,
 evaluation counters of all computeds, values of all observables of live owners."""
 import gc
